@@ -112,6 +112,12 @@ CHECKS = {
   text="Every Unicode scalar value (quick: planes 3-13 sampled) alone and in context, every byte string of length <= 2, ~5000 boundary floats and ints, rapid strings over all code-point classes, floats from random bit patterns, ints of any size and containers to depth 6 with shared substructure: repr must be valid source evaluating to an equal value of the same type (floats bit-identical), str(s) == s, Quote/unquote inverse and idempotent; str/repr/%s/%r of cyclic list/dict/tuple graphs must terminate (64 MB stack cap, child process).",
   design_ref="DESIGN.md section 4, C15",
   note="Invalid UTF-8 in text strings is outside the property and discarded; structs are outside its domain (their cyclic printing is a C02 finding)."),
+ "C14": dict(
+  technique="round-trip property testing (render a generated syntax tree under a random layout, parse, compare trees, literal values and positions), token round trip, and differential testing against an independent reference lexer/parser on one-token near misses; native fuzzing in the thorough tier",
+  category="exploration",
+  text="Trees to depth 6 over every expression and statement form, rendered under drawn layouts (spaces/tabs, comments, blank lines, continuations, line breaks in brackets, trailing commas, ';', one-line suites, indentation widths, LF/CRLF, minimal or redundant parentheses from a precedence table written from the spec) and literal spellings (all int bases and sizes, float forms, every string/bytes escape, raw and triple-quoted): Parse must return exactly the tree, with exact literal values and each node's start position; the returned tree re-rendered minimally must have the input's tokens. All 21x21 operator pairs in both nestings, unary x binary, conditional/lambda/tuple in every position are enumerated exhaustively under 4 layouts. Near misses (delete/duplicate/swap/replace one token incl. NEWLINE/INDENT), comparison chains and 419 listed texts are classified by an independent three-valued reference parser: reject => Parse or resolve.File rejects with a position inside the text; accept => same tree and positions.",
+  design_ref="DESIGN.md section 4, C14",
+  note="Rejection of ungrammatical text rests on the hand-written reference parser (answers 'unsure' where spec and implementation are known to diverge or the spec is silent: tabs in indentation, escapes above 127, '00', 'a[1,]'); depth > 6 and REPL scanning are not covered."),
 }
 
 PENDING_REASON = "check not built yet in this session (work in progress; DESIGN.md section 4 describes the planned generated-input check)"
